@@ -395,7 +395,7 @@ func run(c *vh.Ctx) error {
 	// ---- known-finding probes ----
 	probes(c)
 	// ---- seeded sequences ----
-	nSeq := c.N(260, 4000)
+	nSeq := c.N(1500, 14000)
 	if c.Search {
 		nSeq *= 3
 	}
